@@ -398,6 +398,47 @@ def update_github(first_page_has_rollup=True):
     )
 
 
+def update_loop(entered_while_updating):
+    """WatchedBranch._update: updates of one branch are serialised by the `updating` flag.  An invocation that finds the flag set
+    (another update of this branch is suspended at an await) runs no step and leaves the flag alone - if it reset it, a third
+    invocation would run a full update concurrently with the first and both could merge on the same view of the target branch.
+    An invocation that finds it clear holds it during every step and clears it on every exit."""
+
+    def step(name):
+        def model(eng, st, args, kw, node):
+            eng.oblige(st, 'a-step-runs-only-while-this-invocation-holds-the-flag', z3.And(eng.truthy(st.env['self'].fields['updating']), z3.Not(st.env['ENTERED_BUSY'])))
+            st.env['n_steps'] = st.env['n_steps'] + 1
+            e = z3.Const(pyvc.fresh_name('step_exc'), pyvc.U)
+            # a step suspends: flags set by webhooks meanwhile (github_changed / batch_changed / state_changed) are arbitrary afterwards;
+            # `updating` is written by _update only (closed-world obligation in scans())
+            def havoc(s):
+                for f in ('github_changed', 'batch_changed', 'state_changed'):
+                    s.env['self'].fields[f] = z3.Bool(pyvc.fresh_name(f))
+            raise Fork(node, [(name, None, 'value', None, havoc), (name + '-fails', None, 'raise', SExc(term=e), havoc)])
+        return model
+
+    def setup(eng, st):
+        st.env['ENTERED_BUSY'] = z3.BoolVal(entered_while_updating)
+
+    return Contract(
+        path=PATH,
+        qualname='WatchedBranch._update',
+        label='WatchedBranch._update[%s]' % ('entered-while-another-update-runs' if entered_while_updating else 'entered-idle'),
+        types={'frozen': 'bool', 'db': 'U', 'batch_client': 'U', 'gh': 'U'},
+        self_fields={'updating': 'bool', 'github_changed': 'bool', 'batch_changed': 'bool', 'state_changed': 'bool', 'deploy_batch': 'U', 'deploy_state': 'U', 'mergeable': 'bool'},
+        setup=setup,
+        requires=['self.updating == %s' % entered_while_updating],
+        ghost_init={'n_steps': '0'},
+        calls={'self._update_github': step('update-github'), 'self._update_batch': step('update-batch'), 'self._heal': step('heal'), 'self.try_to_merge': step('try-to-merge'),
+               'log.info': lambda eng, st, args, kw, node: None, 'self.short_str': lambda eng, st, args, kw, node: z3.Const('short', pyvc.U)},
+        loops={0: LoopSpec(invariants=[('the-flag-is-held-throughout', 'self.updating == True')], modifies=['n_steps', 'self.github_changed', 'self.batch_changed', 'self.state_changed'])},
+        ensures=[('an-invocation-that-found-the-flag-set-runs-nothing-and-leaves-it-set', 'self.updating == True and n_steps == 0')] if entered_while_updating else [('the-flag-is-cleared-on-return', 'self.updating == False')],
+        on_raise=[('the-flag-is-cleared-on-every-exceptional-exit', 'self.updating == False')] if not entered_while_updating else [('never-raises-when-busy', 'False')],
+        raises={'*': True},
+        canaries=[] if entered_while_updating else [('never-runs-a-step', 'n_steps == 0')],
+    )
+
+
 def scans(ctx):
     tree = pyast.parse(core.read_repo(PATH))
     sb = pyvc.find_function(tree, 'PR._start_build')
@@ -426,6 +467,18 @@ def scans(ctx):
                 if isinstance(b, pyast.Assign) and isinstance(b.value, pyast.Constant):
                     members[b.targets[0].id] = b.value.value
     ctx.add(core.decided('C30/GithubStatus/three-members-with-different-values', set(members) == {'SUCCESS', 'PENDING', 'FAILURE'} and len(set(members.values())) == 3, repr(members), kind='scan'))
+    writers = sorted({fn.name for fn in pyast.walk(tree) if isinstance(fn, (pyast.FunctionDef, pyast.AsyncFunctionDef)) for n in pyast.walk(fn) if isinstance(n, (pyast.Assign, pyast.AnnAssign, pyast.AugAssign)) for t in (n.targets if isinstance(n, pyast.Assign) else [n.target]) if pyast.unparse(t).endswith('.updating')})
+    ctx.add(core.decided('C30/closed-world/the-updating-flag-is-written-only-by-_update-and-the-constructor', writers == ['__init__', '_update'], repr(writers), kind='scan'))
+    ub = pyvc.find_function(tree, 'PR._update_batch')
+    lb = [n for n in pyast.walk(ub) if isinstance(n, pyast.Call) and pyast.unparse(n.func).endswith('list_batches')]
+    terms = None
+    if len(lb) == 1 and len(lb[0].args) == 1 and isinstance(lb[0].args[0], pyast.JoinedStr):
+        txt = ''.join(v.value if isinstance(v, pyast.Constant) else '{' + pyast.unparse(v.value) + '}' for v in lb[0].args[0].values)
+        terms = sorted(txt.split())
+    # the test batch of a head is looked up by free-form attributes; `user:ci` is what ties the answer to batches CI itself created
+    # (any other user of a shared billing project can attach the same attributes to a green batch of its own)
+    want = sorted(['test=1', 'target_branch={self.target_branch.branch.short_str()}', 'source_sha={self.source_sha}', 'user:ci'])
+    ctx.add(core.decided('C30/PR._update_batch/the-test-batch-is-looked-up-among-CIs-own-test-batches-of-this-head-and-target-branch', terms == want, repr(terms), kind='scan'))
     heal = pyvc.find_function(tree, 'PR._heal')
     first = pyast.unparse(heal.body[0]) if not isinstance(heal.body[0], pyast.Expr) else pyast.unparse(heal.body[1])
     ctx.add(core.decided('C30/PR._heal/no-build-while-the-target-commit-is-unknown', first.replace('\n', ' ').startswith('if self.target_branch.sha is None:'), first[:120], kind='scan'))
@@ -450,11 +503,11 @@ def native_witness(ctx):
 
 
 def build(ctx):
-    for c in (github_status_contract(), up_to_date(), mergeable(), update_batch(), update_from_gh_json(), update_github(True), update_github(False), try_to_merge(), merge()):
+    for c in (github_status_contract(), up_to_date(), mergeable(), update_batch(), update_from_gh_json(), update_github(True), update_github(False), try_to_merge(), merge(), update_loop(True), update_loop(False)):
         e = pyvc.Engine(ctx, c).run()
         _strict(ctx, e, c.label or c.qualname)
     scans(ctx)
     ctx.witness_search = lambda: core.run_native(open(os.path.join(os.path.dirname(__file__), 'native', 'c30_replay.py')).read(), {})
     ctx.assume('GitHub: PUT /pulls/N/merge with {sha: S} merges only if the PR head is still S (stale-head protection), and a successful merge moves the target branch to a new commit')
-    ctx.assume('WatchedBranch._update serialises updates of one branch (the `updating` flag); statuses are re-read for the current head (commits(last: 1)) in the same update pass before try_to_merge')
-    ctx.undecided('utils.github_status (which GraphQL states count as SUCCESS: SUCCESS and NEUTRAL) is an uninterpreted function here; _update_batch relies on the listing being newest-first')
+    ctx.assume('WatchedBranch._update serialises updates of one branch (the `updating` flag); statuses are read for the current head (commits(last: 1))')
+    ctx.undecided('how recent the last complete refresh is when a batch callback triggers a merge attempt (polling: GitHub may have changed since); _update_batch relies on the listing being newest-first')
